@@ -24,7 +24,7 @@ func VP_C17_matchAuth() {
 }
 
 //vp:property C17
-//vp:bounds handshake body length 0..8 with symbolic content (all client words, all version bytes), 4 server settings, one arbitrary follow-up packet (type symbolic, body <= 4 bytes)
+//vp:bounds handshake body length 0..8 with symbolic content (all client words, all version bytes), 4 server settings, one arbitrary follow-up packet (type symbolic, body <= 4 bytes) arriving in a read of its own or in the same read as the handshake
 //vp:reach accept refuse advanced
 func VP_C17_handshake() {
 	sc, paa := vpBool("sc"), vpBool("paa")
@@ -33,6 +33,11 @@ func VP_C17_handshake() {
 	t2 := vpU16("t2")
 	b2 := vpBytes("b2", 4)
 	tr := &vpTransport{in: [][]byte{vpPacket(PKT_TYPE_HANDSHAKE_REQUEST, body), vpPacket(t2, b2)}}
+	onePiece := vpBool("both-packets-arrive-in-one-read")
+	if onePiece {
+		// a client that does not wait for the handshake answer: both packets in one websocket message / chunk
+		tr.in = [][]byte{append(append([]byte{}, tr.in[0]...), tr.in[1]...)}
+	}
 	tun := &Tunnel{transportIn: tr, transportOut: tr, User: vpUser()}
 	p := NewProcessor(gw, tun)
 	err := p.Process(vpCtx())
@@ -80,7 +85,7 @@ func VP_C17_handshake() {
 			if len(tr.out) >= 2 && len(tr.out[1]) >= 12 {
 				vpAssert(vpLE32(tr.out[1], 8) != 0, "a-further-handshake-or-other-out-of-order-packet-is-not-answered-with-success")
 			}
-			vpAssert(err != nil || tr.pos < 2, "tunnel-ends-on-an-out-of-order-packet-after-the-handshake")
+			vpAssert(err != nil || (!onePiece && tr.pos < 2), "tunnel-ends-on-an-out-of-order-packet-after-the-handshake")
 		}
 	} else {
 		vpReach("refuse")
